@@ -1697,8 +1697,15 @@ impl Server {
         let sessions_count = self.sessions.borrow().slab.len();
         let mut sessions_to_shut_down = HashSet::new();
 
-        for (_key, session) in &self.sessions.borrow().slab {
-            let mut session = session.borrow_mut();
+        // Sessions that stay alive: `shutting_down()` may have done I/O on their
+        // frontend outside of `ready()` (an H2 session reads and flushes while it
+        // drains). What it read - e.g. the end of an in-flight request body -
+        // still has to be acted upon (forwarded to the backend), and no epoll
+        // event will come for bytes that were already consumed: run the regular
+        // state machine once for each of them after the scan.
+        let mut still_running: Vec<(Token, Rc<RefCell<dyn ProxySession>>)> = Vec::new();
+        for (_key, session_rc) in &self.sessions.borrow().slab {
+            let mut session = session_rc.borrow_mut();
             if session.shutting_down() {
                 debug!(
                     "Server killing session from shutting_down: token={:?}, protocol={:?}",
@@ -1706,9 +1713,21 @@ impl Server {
                     session.protocol()
                 );
                 sessions_to_shut_down.insert(Token(session.frontend_token().0));
+            } else {
+                let token = session.frontend_token();
+                if !still_running.iter().any(|(t, _)| *t == token) {
+                    still_running.push((token, session_rc.clone()));
+                }
             }
         }
+        still_running.retain(|(token, _)| !sessions_to_shut_down.contains(token));
         let _ = self.shut_down_sessions_by_frontend_tokens(sessions_to_shut_down);
+        for (_token, session) in still_running {
+            let to_be_closed = session.borrow_mut().ready(session.clone());
+            if to_be_closed {
+                self.kill_session(session);
+            }
+        }
 
         let new_sessions_count = self.sessions.borrow().slab.len();
 
